@@ -82,6 +82,8 @@ structure Parsed where
   ntokens : Nat
   invs : List View := []
   services : List Srv.Method := []
+  /-- ability ↦ what its handler returns ("ok" | "okfx" | "okjoin" | "err") -/
+  results : List (Bytes × String) := []
   /-- per token: which of its proofs were embedded as blocks when it was issued -/
   inlines : Array (List Bool) := #[]
 
@@ -164,11 +166,13 @@ def parseWorld (j : Json) : Except String Parsed := do
     let can ← getStr sj "can"
     let res ← getStr sj "result"
     pure ({ can := bytesOf can, desc := { d with can := bytesOf can }, handlerOk := res != "err" } : Srv.Method)
+  let results ← (← getArr j "services").toList.mapM fun sj => do
+    pure (bytesOf (← getStr sj "can"), (← getStr sj "result"))
   let inlines ← (← getArr j "tokens").mapM fun tj => do
     (← getArr tj "inline").toList.mapM (·.getBool?)
   match tokenOf invId with
   | none => throw "no invocation token"
-  | some t => pure { W, d, inv := ⟨t, invId⟩, ntokens := toks.size, invs, services, inlines }
+  | some t => pure { W, d, inv := ⟨t, invId⟩, ntokens := toks.size, invs, services, inlines, results }
 
 def parseSpine (j : Json) : Except String (List SpineItem) := do
   (← j.getArr?).toList.mapM fun it => do
